@@ -215,6 +215,13 @@ theorem ri_schedLoop {s : Sys} (hs : SInv s) (h : RI s) (hb : BufI s) {p : Proc}
         · simp only [List.mem_singleton] at h1
           subst h1
           rw [g2] at hfin; exact absurd hfin (by simp)
+      · show (X.plans.map (·.obs)).Nodup
+        rw [hpl, List.map_append, List.nodup_append]
+        refine ⟨h.pn, by simp, ?_⟩
+        intro a ha b hb'
+        simp at hb'; subst hb'
+        obtain ⟨pl, hpl', rfl⟩ := List.mem_map.mp ha
+        rw [g1]; exact hnoplan pl hpl'
       · intro q hq hqa t m preds o' ret hqk
         rcases hold q hq (by rw [hqk]; simp [PK.tag]) with hq0 | hqn
         · obtain ⟨a1, a2⟩ := h.st q hq0 hqa t m preds o' ret hqk
